@@ -229,7 +229,8 @@ BRANCH_NAMES['codecs16'] = ['observation', 'mutated_obs_decodes', 'mutated_obs_r
                             'llo_onchain', 'mercury_onchain', 'int192', 'int192_raw', 'json_go_only']
 PROPS['C16'] = dict(
     level='proof',
-    projections=[dict(name='codecs16', spec_index=1, n_quick=900, n_thorough=20000)],
+    projections=[dict(name='codecs16', spec_index=1, n_quick=900, n_thorough=20000),
+                 dict(name='mercobserve', spec_index=1, n_quick=800, n_thorough=20000)],
     rule="codecs16: observations built over the full uint32/uint64 ranges (removal ids, definition votes, values of every type, sign, magnitude, "
          "scale, negative zero, nested timestamped values) encoded/decoded by the factory-built plugin's ObservationCodec and validated; "
          "structure-aware mutated observation messages (duplicate removal ids, nil / unknown / negative-typed values, timestamped value "
